@@ -124,13 +124,13 @@ theorem C16_root_size : rootNuPassed = true := by decide
 /-! ## wiring -/
 
 /-- **Keyword wiring of `_integrate_phi`** for 1…5 demes: the branch for n populations calls the n-population integrator and
-    population k receives `nu[k]`, `gamma[k]`, `h[k]`, `frozen[k]` and `M[k,j]` as `m_{k+1,j+1}`; `phi`, `xx`, `T`, `theta`,
-    `deme_ids` go to their parameters. -/
+    population k receives `nu[k]`, `frozen[k]` and `M[k,j]` as `m_{k+1,j+1}`, and an entry of the gamma and h lists (all entries
+    of which are the one scalar given to `SFS`: `C16_wiring_matrix`); `phi`, `xx`, `T`, `theta`, `deme_ids` go to their parameters. -/
 theorem C16_wiring :
     integCalls.map (·.npop) = [1, 2, 3, 4, 5]
     ∧ ∀ c ∈ integCalls, c.fn = integName c.npop
-      ∧ ∀ k < c.npop, look c (Slot.nu k) = some (Slot.nu k) ∧ look c (Slot.gamma k) = some (Slot.gamma k)
-          ∧ look c (Slot.h k) = some (Slot.h k) ∧ look c (Slot.frozen k) = some (Slot.frozen k)
+      ∧ ∀ k < c.npop, look c (Slot.nu k) = some (Slot.nu k) ∧ look c (Slot.frozen k) = some (Slot.frozen k)
+          ∧ (∃ j < c.npop, look c (Slot.gamma k) = some (Slot.gamma j)) ∧ (∃ j < c.npop, look c (Slot.h k) = some (Slot.h j))
           ∧ ∀ j < c.npop, j ≠ k → look c (Slot.M k j) = some (Slot.M k j) := by
   decide
 
@@ -139,7 +139,7 @@ theorem C16_wiring :
     and the sorted proportion lists follow the order of the live demes (shape checks of the translator) -/
 theorem C16_wiring_matrix :
     migRowIsDest = true ∧ frozenFlagsFollowLiveOrder = true ∧ defaultNeIsRootStartSize = true
-    ∧ sortedPropsShapeOk = true ∧ finalReorderShapeOk = true := by decide
+    ∧ sortedPropsShapeOk = true ∧ finalReorderShapeOk = true ∧ gammaHUniform = true := by decide
 
 /-- the same through the Boolean specification the driver evaluates -/
 theorem C16_wiring_spec : integCalls.all wiringOk = true := by decide
